@@ -31,6 +31,13 @@ func cfgFor(kind string) gen.Config {
 // steered reports the id of the open known finding whose situation (the
 // pattern without its outcome fields) matches the op about to be issued.
 func steered(c *vt.Ctx, sit map[string]string) string {
+	id, _ := steeredAlways(c, sit)
+	return id
+}
+
+// steeredAlways also reports whether the matching entry must never be issued
+// in a multi-step history (its deviation can be silent and cascade).
+func steeredAlways(c *vt.Ctx, sit map[string]string) (string, bool) {
 	d := &vt.Deviation{Fields: sit}
 	for _, k := range c.OpenKnown() {
 		m := map[string]string{}
@@ -40,16 +47,16 @@ func steered(c *vt.Ctx, sit map[string]string) string {
 			}
 			m[f] = p
 		}
-		if len(m) <= 2 { // only prop/fs constrained: not a situation, cannot steer
+		if !hasSituation(m) { // only prop/fs constrained: not a situation, cannot steer
 			continue
 		}
 		kk := *k
 		kk.Match = m
 		if kk.MatchesSituation(d) {
-			return k.ID
+			return k.ID, k.Steer == "always"
 		}
 	}
-	return ""
+	return "", false
 }
 
 // runOps executes ops in lock-step and returns the first deviation.
@@ -182,11 +189,9 @@ func TestCheck(t *testing.T) {
 			for i := 0; i < n; i++ {
 				in := cfg.Draw(t)
 				sit := w.Situation("C01", in[0])
-				if !unsteered {
-					if id := steered(c, sit); id != "" {
-						c.Excluded(id)
-						continue
-					}
+				if id, always := steeredAlways(c, sit); id != "" && (always || !unsteered) {
+					c.Excluded(id)
+					continue
 				}
 				c.Label("op:" + in[0].K)
 				if a := sit["a"]; a != "" {
@@ -282,4 +287,13 @@ func replay(c *vt.Ctx, kt *kernel.Thread, cs Case) *vt.Deviation {
 	}
 	defer w.Close()
 	return runOps(c, w, cs.Ops, nil)
+}
+
+func hasSituation(m map[string]string) bool {
+	for _, f := range []string{"op", "a", "b", "ab", "rel", "params", "hflags", "hkind"} {
+		if _, ok := m[f]; ok {
+			return true
+		}
+	}
+	return false
 }
